@@ -106,6 +106,27 @@ pub fn fill(content: u8, seed: u64, len: usize, binary: bool) -> Vec<u8> {
         1 => vec![0u8; len],
         2 => vec![if binary { 1 } else { 0xFF }; len],
         0 => rng.bytes(len),
+        k if k >= 9 => {
+            // sparse periodic pattern: one non-zero byte per period of 2..64 bytes, counted from
+            // the start of the slice (so that whole vector blocks consist of equal 64-bit lanes,
+            // lanes whose sum or xor vanishes without the block being zero, sign bits only, ...)
+            let (p, j) = match (k - 9) % 6 {
+                0 => (8usize, 7usize),
+                1 => (8, rng.below(8) as usize),
+                2 => (16, rng.below(16) as usize),
+                3 => (2 + 2 * rng.below(2) as usize, 1),
+                4 => (32, rng.below(32) as usize),
+                _ => (64, rng.below(64) as usize),
+            };
+            let val = [0x80u8, 0x20, 0x40, 0xE0, 0x01, 0xFF, 0x10, 0x08][rng.below(8) as usize];
+            let mut v = vec![0u8; len];
+            let mut i = j;
+            while i < len {
+                v[i] = val;
+                i += p;
+            }
+            v
+        }
         k => {
             // one-hot at one of the first / last three positions
             let mut v = vec![0u8; len];
@@ -277,7 +298,7 @@ fn signature(c: &Case, msg: &str) -> String {
 
 pub fn run(ctx: &Ctx, rep: &mut Report) {
     let ps = paths();
-    rep.rule = format!("enumerated grid: entry point in {:?} (every kernel the hook exposes that `supported()` reports on this CPU, plus the public dispatchers) x op in {{add, mul, fma, fma_binary}} x length in 0..=320 U {{511,512,513,1280,4099}} (and 65535, 65536, 65537, 65600, 131073 with offsets {{0,1,63}} and 8 scalars) x destination start offset 0..=63 inside a 64-byte aligned arena (source offset derived independently) x scalars (quick: all 256 at offsets {{0,1,31,63}} for every length and at every 8th offset for 24 special lengths, {{0,1,2,0x1D,0x80,0xFF}} + 2 generated elsewhere; thorough: all 256 at every offset) x contents (random, 0x00, 0xFF, one-hot at each of the first/last three positions). The packed operand of fma_binary is built by the harness from the documented layout. Oracle: element-wise model with the polynomial multiplier + canaries around the destination and source. Non-trivial = length >= one vector width of the kernel with length mod width != 0 and scalar not in {{0,1}}; distinct by (path, op, len, offset, scalar, content).", ps.iter().map(|p| path_name(*p)).collect::<Vec<_>>());
+    rep.rule = format!("enumerated grid: entry point in {:?} (every kernel the hook exposes that `supported()` reports on this CPU, plus the public dispatchers) x op in {{add, mul, fma, fma_binary}} x length in 0..=320 U {{511,512,513,1280,4099}} (and 65535, 65536, 65537, 65600, 131073 with offsets {{0,1,63}} and 8 scalars) x destination start offset 0..=63 inside a 64-byte aligned arena (source offset derived independently) x scalars (quick: all 256 at offsets {{0,1,31,63}} for every length and at every 8th offset for 24 special lengths, {{0,1,2,0x1D,0x80,0xFF}} + 2 generated elsewhere; thorough: all 256 at every offset) x contents (random, 0x00, 0xFF, one-hot at each of the first/last three positions, and six sparse periodic patterns: one byte from {{0x80,0x20,0x40,0xE0,0x01,0xFF,0x10,0x08}} per period of 2..64 bytes counted from the start of the slice, among them the top byte of every 64-bit lane). The packed operand of fma_binary is built by the harness from the documented layout. Oracle: element-wise model with the polynomial multiplier + canaries around the destination and source. Non-trivial = length >= one vector width of the kernel with length mod width != 0 and scalar not in {{0,1}}; distinct by (path, op, len, offset, scalar, content).", ps.iter().map(|p| path_name(*p)).collect::<Vec<_>>());
     rep.exhaustive = ctx.tier == Tier::Thorough;
     rep.assumptions.push("NEON kernels cannot execute on this x86-64 host; they are not covered".into());
     if cfg!(debug_assertions) {
@@ -320,9 +341,9 @@ pub fn run(ctx: &Ctx, rep: &mut Report) {
                 }
                 for (si, &scalar) in scalars.iter().enumerate() {
                     let contents: Vec<u8> = if !long && (thorough || all_scalars && si < 8) {
-                        (0..9).collect()
+                        (0..15).collect()
                     } else {
-                        vec![0, 1 + ((d_off + si) % 8) as u8]
+                        vec![0, 1 + ((d_off + si) % 14) as u8]
                     };
                     for content in contents {
                         let c = Case { path, op, len, d_off, s_off: (rng.next_u64() % 64) as usize, scalar, content, seed: rng.next_u64() };
@@ -429,7 +450,7 @@ pub fn fuzz_one(data: &[u8]) -> Result<(), String> {
         d_off: u.int_in_range(0..=63usize).unwrap_or(0),
         s_off: u.int_in_range(0..=63usize).unwrap_or(0),
         scalar: u.arbitrary().unwrap_or(2),
-        content: u.int_in_range(0..=8u8).unwrap_or(0),
+        content: u.int_in_range(0..=14u8).unwrap_or(0),
         seed: u.arbitrary().unwrap_or(0),
     };
     run_arena(&c).map_err(|m| format!("{m} | case {}", case_json(&c)))?;
